@@ -37,6 +37,55 @@ end OllamaVerif.Gguf
 namespace OllamaVerif.Gguf
 open OllamaVerif
 
+/-- under the input guard (key absent or a uint32) the lenient writer lays the file out with that alignment -/
+theorem writerAlignment_lenient (kvs : List (Bytes × KVal)) (a : Nat) (h : alignmentIn kvs = .ok a) :
+    writerAlignment false kvs = .ok a := by
+  unfold alignmentIn at h
+  unfold writerAlignment
+  cases hf : ((kvs.find? (fun p => p.1 = keyAlignment)).map (·.2) : Option KVal) with
+  | none => rw [hf] at h; exact h
+  | some v =>
+    rw [hf] at h
+    cases v <;> simp_all
+
+/-- the repaired writer only goes on when the input guard holds with a non-zero alignment -/
+theorem writerAlignment_strict (kvs : List (Bytes × KVal)) (a : Nat) (h : writerAlignment true kvs = .ok a) :
+    alignmentIn kvs = .ok a ∧ 0 < a := by
+  unfold writerAlignment at h
+  unfold alignmentIn
+  cases hf : ((kvs.find? (fun p => p.1 = keyAlignment)).map (·.2) : Option KVal) with
+  | none => rw [hf] at h; simp only [] at h ⊢; injection h with h; subst h; exact ⟨rfl, by decide⟩
+  | some v =>
+    rw [hf] at h
+    cases v with
+    | u32 n =>
+      simp only [true_and] at h ⊢
+      split at h
+      · cases h
+      · injection h with h; subst h; exact ⟨rfl, by omega⟩
+    | f32 _ => simp at h
+    | bool _ => simp at h
+    | str _ => simp at h
+    | ai32 _ => simp at h
+    | au32 _ => simp at h
+    | af32 _ => simp at h
+    | astr _ => simp at h
+
+/-- what the repaired writer writes is what the lenient one writes, and its input meets the guard -/
+theorem encode_strict (kvs : List (Bytes × KVal)) (ts : List TIn) (file : Bytes)
+    (h : encode false kvs ts true = .ok file) :
+    ∃ align, alignmentIn kvs = .ok align ∧ 0 < align ∧ encode false kvs ts false = .ok file := by
+  unfold encode at h
+  cases ha : writerAlignment true kvs with
+  | error e => rw [ha] at h; simp [bind, Except.bind] at h
+  | ok a =>
+    obtain ⟨h1, h2⟩ := writerAlignment_strict kvs a ha
+    refine ⟨a, h1, h2, ?_⟩
+    rw [ha] at h
+    unfold encode
+    rw [writerAlignment_lenient kvs a h1]
+    exact h
+
 /-- `slice bs off len` = the `len` bytes of `bs` starting at `off` -/
 def slice (bs : Bytes) (off len : Nat) : Bytes := (bs.drop off).take len
 
